@@ -1,5 +1,5 @@
 #!/usr/bin/env python3
-"""lib/floorcheck.py <seed> ... : runs every registered check (quick) at the given VERIF_SEED values and reports, per class
+"""lib/floorcheck.py [--only C07,C19] <seed> ... : runs every registered check (quick) at the given VERIF_SEED values and reports, per class
 floor of the specs, the smallest observed/floor ratio — floors with a thin margin make a check exit 2 at some seed."""
 import json, os, subprocess, sys
 ROOT = os.path.dirname(os.path.dirname(os.path.abspath(__file__)))
@@ -7,8 +7,17 @@ sys.path.insert(0, os.path.join(ROOT, "lib"))
 import specs
 worst = {}
 bad = []
-for seed in sys.argv[1:]:
+args = sys.argv[1:]
+only = None
+if args and args[0] == "--only":
+    only = [x.upper() for x in args[1].split(",")]
+    args = args[2:]
+if not args or not all(a.isdigit() for a in args):
+    sys.exit("usage: lib/floorcheck.py [--only C07,C19] <seed> ...   (seeds are integers)")
+for seed in args:
     for pid in specs.READY:
+        if only and pid not in only:
+            continue
         env = dict(os.environ, VERIF_SEED=seed)
         p = subprocess.run([os.path.join(ROOT, "check"), pid], cwd=ROOT, env=env, stdout=subprocess.PIPE, stderr=subprocess.STDOUT, text=True)
         if p.returncode != 0:
